@@ -27,11 +27,19 @@ import (
 )
 
 const (
-	repoDir  = "/repo"
-	goRoot   = "/opt/veriftools/go1.26.8"
-	tmpBase  = "/tmp/ecalverif"
-	verifDir = "/verif"
+	repoDir = "/repo"
+	goRoot  = "/opt/veriftools/go1.26.8"
+	tmpBase = "/tmp/ecalverif"
 )
+
+// verifDir is the directory the check wrapper runs in (/verif, or a snapshot of it
+// when started through `vp run`): evidence and replay files are written there.
+var verifDir = func() string {
+	if d, err := os.Getwd(); err == nil {
+		return d
+	}
+	return "/verif"
+}()
 
 type engineKind int
 
